@@ -11,6 +11,7 @@ from anytree.exporter import DotExporter, UniqueDotExporter
 
 from .. import forest, nodes, refs, shapes, strategies
 from ..core import Violation
+from . import c06
 
 PROP_ID = "C12"
 LEVEL = "exploration"
@@ -91,6 +92,41 @@ def expected_structure(tree, start, stop_ids, hide_ids, maxlevel):
     return declared, edges, kf
 
 
+class CallbackBoom(Exception):
+    """Raised by a user callback (filter_, stop, a naming/attribute function) in the middle of an export."""
+
+
+def tripwired(kwargs, trip):
+    """The same keyword arguments, every callable wrapped so that it raises CallbackBoom while trip['left'] counts down to < 0."""
+
+    def wrap(func):
+        def inner(*args):
+            if trip["left"] is not None:
+                trip["left"] -= 1
+                if trip["left"] < 0:
+                    raise CallbackBoom()
+            return func(*args)
+
+        return inner
+
+    return {key: wrap(value) if callable(value) else value for key, value in kwargs.items()}
+
+
+def aborted_iterations(exporter, trip, lines, ctx, acc, positions):
+    """Iterations of a long-lived exporter that end in an exception from a user callback leave nothing behind."""
+    for k in positions:
+        trip["left"] = k
+        try:
+            list(exporter)
+        except CallbackBoom:
+            acc.tag("iterations_aborted_by_callback_exception")
+        finally:
+            trip["left"] = None
+        again = list(exporter)
+        if again != lines:
+            raise Violation("after-aborted-iteration", "%s: after an iteration that was aborted by an exception from callback call %d the same exporter yields %r instead of %r" % (ctx, k + 1, again, lines))
+
+
 def check_exporter(case, kind, tree, labels, acc):
     start = tree[case["start"]]
     index_of = {id(n): i for i, n in enumerate(tree)}
@@ -99,15 +135,18 @@ def check_exporter(case, kind, tree, labels, acc):
     maxlevel = case["maxlevel"]
     funcs = make_funcs(case, tree, index_of)
     kwargs = dict(funcs)
+    _yes, _no = c06.TRUTH_STYLES[case.get("truth", 0) % 4]  # predicates are judged by truth value only
     if case["stop"]:
-        kwargs["stop"] = lambda n: id(n) in stop_ids
+        kwargs["stop"] = lambda n: _yes if id(n) in stop_ids else _no
     if case["hide"]:
-        kwargs["filter_"] = lambda n: id(n) not in hide_ids
+        kwargs["filter_"] = lambda n: _yes if id(n) not in hide_ids else _no
     if maxlevel is not None:
         kwargs["maxlevel"] = maxlevel
     for key in ("graph", "name", "options", "indent"):
         if key in case:
             kwargs[key] = case[key]
+    trip = {"left": None}
+    kwargs = tripwired(kwargs, trip)
     if kind == "DotExporter":
         exporter = DotExporter(start, **kwargs)
     elif kind == "UniqueDotExporter":
@@ -232,6 +271,19 @@ def check_exporter(case, kind, tree, labels, acc):
     # repeated iteration gives the same lines (identifier stability)
     if list(exporter) != lines:
         raise Violation("re-iteration", "%s: second iteration differs" % ctx)
+    aborted_iterations(exporter, trip, lines, ctx, acc, (0, case.get("abort_at", 2), len(lines)))
+    if case.get("to_file"):
+        # the configured exporter writes exactly its lines, UTF-8 encoded, one per line
+        fd, path = tempfile.mkstemp(suffix=".dot", prefix="vf-c12-")
+        os.close(fd)
+        try:
+            exporter.to_dotfile(path)
+            with open(path, "rb") as fh:
+                data = fh.read()
+        finally:
+            os.unlink(path)
+        if data != "".join(line + "\n" for line in lines).encode("utf-8"):
+            raise Violation("to_dotfile", "%s: file content %r, expected the lines %r" % (ctx, data, lines))
     if declared and case.get("phases", True):
         # a second iteration started while the first one is between its node statements and its edges
         it1 = iter(exporter)
@@ -337,7 +389,7 @@ def _enum_cases(max_nodes, index, count):
             for stop in shapes.subsets(sub):
                 for hide in shapes.subsets(sub):
                     for maxlevel in [None] + list(range(0, height + 3)):
-                        yield {"shape": forest.to_list(shape), "names": names, "start": start, "stop": stop, "hide": hide, "maxlevel": maxlevel, "cls": ("Node", "EqNode", "Node", "FalsyNode", "LenNode")[k % 5]}
+                        yield {"shape": forest.to_list(shape), "names": names, "start": start, "stop": stop, "hide": hide, "maxlevel": maxlevel, "truth": k, "cls": ("Node", "EqNode", "Node", "FalsyNode", "LenNode")[k % 5]}
 
 
 NAME = st.text(alphabet=NAME_ALPHABET, min_size=0, max_size=4)
@@ -363,6 +415,7 @@ def random_cases(draw, exporters=("DotExporter", "UniqueDotExporter", "RenderTre
         "stop": draw(strategies.subsets_of(size, max_size=3)),
         "hide": draw(strategies.subsets_of(size, max_size=4)),
         "maxlevel": draw(st.one_of(st.none(), st.integers(0, 6))),
+        "truth": draw(st.integers(0, 3)),
         "exporters": kinds,
         "to_file": draw(st.integers(0, 9)) == 0,
         "mutations": draw(strategies.tree_mutations(max_ops=2)),
